@@ -30,14 +30,16 @@ VARIABLES
   shown,    \* key whose fingerprint the current run advertises (0 = none)
   nkeys,    \* keys generated so far
   nsteps,
+  adv,      \* keys whose fingerprint the current run has advertised so far
+            \* (start-up one-liners, /c scripts, help re-printed after a shell died)
   act
 
-vars == <<fst, fkey, fcls, fileId, run, cached, served, shown, nkeys, nsteps, act>>
+vars == <<fst, fkey, fcls, fileId, run, cached, served, shown, nkeys, nsteps, adv, act>>
 
 Init ==
   /\ fst = "absent" /\ fkey = 0 /\ fcls = "" /\ fileId = 0
   /\ run = "stopped" /\ cached = FALSE /\ served = 0 /\ shown = 0 /\ nkeys = 0 /\ nsteps = 0
-  /\ act = [n |-> "Init"]
+  /\ adv = {} /\ act = [n |-> "Init"]
 
 Step == nsteps < MaxSteps /\ nsteps' = nsteps + 1
 
@@ -47,53 +49,61 @@ StartCached ==
   /\ \/ /\ fst = "absent" /\ nkeys < MaxKeys          \* generate and save
         /\ nkeys' = nkeys + 1 /\ served' = nkeys + 1 /\ shown' = nkeys + 1
         /\ fst' = "intact" /\ fkey' = nkeys + 1 /\ fcls' = "" /\ fileId' = fileId + 1
-        /\ run' = "running"
+        /\ run' = "running" /\ adv' = {nkeys + 1}
         /\ act' = [n |-> "Start", c |-> TRUE, r |-> "generated"]
      \/ /\ fst = "intact"                             \* reuse
-        /\ served' = fkey /\ shown' = fkey /\ run' = "running"
+        /\ served' = fkey /\ shown' = fkey /\ run' = "running" /\ adv' = {fkey}
         /\ UNCHANGED <<fst, fkey, fcls, fileId, nkeys>>
         /\ act' = [n |-> "Start", c |-> TRUE, r |-> "reused"]
      \/ /\ fst \in {"torn", "damaged"}                \* refuse to start ...
-        /\ served' = 0 /\ shown' = 0 /\ run' = "failed"
+        /\ served' = 0 /\ shown' = 0 /\ run' = "failed" /\ adv' = {}
         /\ UNCHANGED <<fst, fkey, fcls, fileId, nkeys>>
         /\ act' = [n |-> "Start", c |-> TRUE, r |-> "failed"]
      \/ /\ fst \in {"torn", "damaged"}                \* ... or the harmless remainder still loads
-        /\ served' = fkey /\ shown' = fkey /\ run' = "running"
+        /\ served' = fkey /\ shown' = fkey /\ run' = "running" /\ adv' = {fkey}
         /\ UNCHANGED <<fst, fkey, fcls, fileId, nkeys>>
         /\ act' = [n |-> "Start", c |-> TRUE, r |-> "reused"]
 
 (* A run without a cache: always a fresh key, the file is not touched. *)
 StartUncached ==
   /\ Step /\ run # "running" /\ nkeys < MaxKeys /\ cached' = FALSE
-  /\ nkeys' = nkeys + 1 /\ served' = nkeys + 1 /\ shown' = nkeys + 1 /\ run' = "running"
+  /\ nkeys' = nkeys + 1 /\ served' = nkeys + 1 /\ shown' = nkeys + 1 /\ run' = "running" /\ adv' = {nkeys + 1}
   /\ UNCHANGED <<fst, fkey, fcls, fileId>>
   /\ act' = [n |-> "Start", c |-> FALSE, r |-> "generated"]
 
 Stop ==
-  /\ Step /\ run = "running" /\ run' = "stopped" /\ served' = 0 /\ shown' = 0
+  /\ Step /\ run = "running" /\ run' = "stopped" /\ served' = 0 /\ shown' = 0 /\ adv' = {}
   /\ UNCHANGED <<fst, fkey, fcls, fileId, cached, nkeys>>
   /\ act' = [n |-> "Stop"]
+
+(* The running program advertises its fingerprint again: a script served at *)
+(* /c, or the callback help re-printed after a shell has died.              *)
+Advert(kind) ==
+  /\ Step /\ run = "running" /\ kind \in {"script", "reprint"}
+  /\ adv' = adv \cup {shown}
+  /\ UNCHANGED <<fst, fkey, fcls, fileId, run, cached, served, shown, nkeys>>
+  /\ act' = [n |-> "Advert", cl |-> kind]
 
 (* A run that generates a key and is killed while saving it. *)
 Crash(cl) ==
   /\ Step /\ run # "running" /\ fst = "absent" /\ nkeys < MaxKeys
   /\ nkeys' = nkeys + 1 /\ fst' = "torn" /\ fkey' = nkeys + 1 /\ fcls' = cl /\ fileId' = fileId + 1
-  /\ run' = "stopped" /\ cached' = TRUE /\ served' = 0 /\ shown' = 0
+  /\ run' = "stopped" /\ cached' = TRUE /\ served' = 0 /\ shown' = 0 /\ adv' = {}
   /\ act' = [n |-> "Crash", cl |-> cl]
 
 Damage(cl) ==
   /\ Step /\ run # "running" /\ fst = "intact"
   /\ fst' = "damaged" /\ fcls' = cl /\ fileId' = fileId + 1
-  /\ UNCHANGED <<fkey, run, cached, served, shown, nkeys>>
+  /\ UNCHANGED <<fkey, run, cached, served, shown, nkeys, adv>>
   /\ act' = [n |-> "Damage", cl |-> cl]
 
 Delete ==
   /\ Step /\ run # "running" /\ fst # "absent"
   /\ fst' = "absent" /\ fkey' = 0 /\ fcls' = "" /\ fileId' = fileId + 1
-  /\ UNCHANGED <<run, cached, served, shown, nkeys>>
+  /\ UNCHANGED <<run, cached, served, shown, nkeys, adv>>
   /\ act' = [n |-> "Delete"]
 
-Next == StartCached \/ StartUncached \/ Stop \/ Delete
+Next == StartCached \/ StartUncached \/ Stop \/ Delete \/ (\E k \in {"script", "reprint"} : Advert(k))
         \/ (\E cl \in CutClasses : Crash(cl)) \/ (\E cl \in DamageClasses : Damage(cl))
 Spec == Init /\ [][Next]_vars
 
@@ -108,10 +118,10 @@ MissingRegenerates ==
   [][(act'.n = "Start" /\ act'.c /\ fst = "absent") => (run' = "running" /\ fst' = "intact" /\ served' = fkey')]_vars
 UncachedLeavesFile == [][(act'.n = "Start" /\ ~act'.c) => fileId' = fileId]_vars
 (* C05 *)
-AdvertisedIsServed == run = "running" => (shown = served /\ served # 0)
+AdvertisedIsServed == run = "running" => (shown = served /\ served # 0 /\ adv = {served})
 
 -----------------------------------------------------------------------------
-View == <<fst, fkey, fcls, fileId, run, cached, served, shown, nkeys, nsteps>>
+View == <<fst, fkey, fcls, fileId, run, cached, served, shown, nkeys, nsteps, adv>>
 Emit == \/ ~EmitEdges
         \/ PrintT(<<"EDGE", ToJson([from |-> View, act |-> act', to |-> View'])>>)
 =============================================================================
